@@ -81,7 +81,8 @@ def run_one(params, with_dups, faults=False):
         k.at(T0 + trng.randrange(nticks * step) + 17, sv.frames.append, f)
     tdown = T0 + 13
     for _ in range(params["ndown"]):
-        f = frame("10.9.0.1", V.tun_ip, trng.choice([60, 90, 120] if params.get("many_down") else [40, 100, 400, 900]), trng.choice(["random", "text"]))
+        f = frame("10.9.0.1", V.tun_ip, trng.choice([60, 90, 120] if params.get("many_down") else [2100, 3000, 3600, 4000, 900] if params.get("big_down") else [40, 100, 400, 900]),
+                  "random" if params.get("big_down") else trng.choice(["random", "text"]))
         nfr = (len(proto.deflate(f)) + params["frag"] - 1) // params["frag"]
         tdown += 0 if params.get("many_down") else trng.randrange(3 * step)
         if tdown >= T0 + nticks * step or nfr > 14:
@@ -428,6 +429,11 @@ def run(ctx):
             # from one wrap earlier are still inside the 30-entry ping window
             plist[-1].update(many_down=True, ndown=rng.randint(12, 22), nticks=rng.randint(180, 260), frag=50,
                              lazy=rng.random() < 0.8, ndup=rng.randint(50, 90), nup=rng.randint(0, 2))
+        if i % 16 in (7, 14):
+            # the largest answers the server's answer cache holds: fragments of 2 .. 4 KB (record types that carry them)
+            plist[-1].update(big_down=True, qtype=[proto.T_NULL, proto.T_PRIVATE][(i // 16) % 2], down=rng.choice([None, "r"]),
+                             frag=rng.choice([2047, 2100, 3000, 4093, 4094]), ndown=rng.randint(3, 7), ndup=rng.randint(30, 60))
+            plist[-1].pop("many_small_up", None)
     if ctx.replay:
         plist = [ctx.replay["witness"]["params"]]
     res.min_evaluations = 0 if ctx.replay else 1500
